@@ -149,9 +149,9 @@ func (ex *Exec) loopArrive(fr *Frame, from, head *ssa.BasicBlock, li *loopInfo) 
 				z := ts.NumLit(bigInt(0), m.S)
 				ex.oblige("decreases", lname, li.pos, "loop measure decreases and is bounded below: "+spec.Decreases.Text, ts.And(ts.Lt(m, m0, true), ts.Le(z, m0, true)))
 			}
-			if len(spec.Modifies) > 0 {
-				ex.checkLoopFrame(fr, li, spec, lname)
-			}
+		}
+		if fr.loopHead != nil && fr.loopHead[head.Index] != nil {
+			ex.checkLoopFrame(fr, li, spec, lname)
 		}
 		ex.st.done = true
 		return true
@@ -175,6 +175,12 @@ func (ex *Exec) loopArrive(fr *Frame, from, head *ssa.BasicBlock, li *loopInfo) 
 	for c := range ws.cells {
 		if _, live := ex.st.cells[c]; live {
 			ex.st.cells[c] = ex.havocValue(ex.st.cells[c], c.Typ, c.Name)
+			if c.Name == "rangeindex" {
+				// go/ssa lowers `for i := range s` to a hidden counter that starts at -1 and is only ever incremented
+				if sc, ok := ex.st.cells[c].(Scalar); ok && sc.T != nil {
+					ex.assume(ts.Le(ts.NumLit(bigInt(-1), sc.T.S), sc.T, true))
+				}
+			}
 		}
 	}
 	if ws.escaped {
@@ -184,14 +190,35 @@ func (ex *Exec) loopArrive(fr *Frame, from, head *ssa.BasicBlock, li *loopInfo) 
 			}
 		}
 	}
-	targeted := spec != nil && len(spec.Modifies) > 0
+	mods := ex.loopModifies(fr, spec)
+	targeted := len(mods) > 0
 	if targeted {
 		e := ex.envFor(fr, nil)
 		e.st = &State{cells: preLoop.cells, heap: preLoop.heap, heapEpoch: preLoop.heapEpoch, na: preLoop.na}
-		for _, m := range spec.Modifies {
-			ex.havocTarget(m.E, e, "loop")
+		ok := func() (ok bool) {
+			defer func() {
+				if r := recover(); r != nil {
+					if _, isU := r.(unsupported); isU {
+						ok = false
+						return
+					}
+					panic(r)
+				}
+			}()
+			for _, m := range mods {
+				ex.modTargets(m.E, e)
+			}
+			return true
+		}()
+		if ok {
+			for _, m := range mods {
+				ex.havocTarget(m.E, e, "loop")
+			}
+		} else {
+			targeted = false
 		}
-	} else {
+	}
+	if !targeted {
 		names := make([]string, 0, len(ws.regions))
 		for n := range ws.regions {
 			names = append(names, n)
@@ -219,7 +246,10 @@ func (ex *Exec) loopArrive(fr *Frame, from, head *ssa.BasicBlock, li *loopInfo) 
 		}
 	}
 	if targeted {
-		fr.loopHead = map[int]*Snapshot{head.Index: ex.st.snapshot()}
+		if fr.loopHead == nil {
+			fr.loopHead = map[int]*Snapshot{}
+		}
+		fr.loopHead[head.Index] = ex.st.snapshot()
 	}
 	return false
 }
@@ -363,8 +393,23 @@ func (ex *Exec) checkLoopFrame(fr *Frame, li *loopInfo, spec *LoopSpec, lname st
 	e := ex.envFor(fr, nil)
 	e.st = &State{cells: pre.cells, heap: pre.heap, heapEpoch: pre.heapEpoch, na: pre.na}
 	var targets []modTarget
-	for _, m := range spec.Modifies {
+	for _, m := range ex.loopModifies(fr, spec) {
 		targets = append(targets, ex.modTargets(m.E, e)...)
 	}
 	ex.frameObligations("loop-frame", lname, li.pos, head, targets)
+}
+
+
+// loopModifies: the loop's own modifies clause, else the enclosing function's (the loop cannot touch more than the function may).
+func (ex *Exec) loopModifies(fr *Frame, spec *LoopSpec) []*Clause {
+	if spec != nil && len(spec.Modifies) > 0 {
+		return spec.Modifies
+	}
+	if fr.fn == ex.root && ex.contract != nil && len(ex.contract.Modifies) > 0 {
+		if _, off := ex.contract.Options["loophavoc"]; off {
+			return nil
+		}
+		return ex.contract.Modifies
+	}
+	return nil
 }
